@@ -1,0 +1,25 @@
+//go:build verif
+
+package iobroker
+
+/*
+ * verif_on.go
+ * Verification hook points, for deterministic simulation (-tags verif)
+ */
+
+import "context"
+
+// VerifHook, if set, is called at the points in connect and Do at which
+// concurrent callers are serialised by the broker's lock:
+// "admit" (before the admission section), "attached" (after it, stream
+// accepted), "release" (before the exit section), "done" (after the exit
+// section or a refusal) and "shutdown" (before Do stops new connections).
+// It may block to hold the caller at that point.
+var VerifHook func(ctx context.Context, site, dir, key string)
+
+// verifPoint calls VerifHook, if set.
+func verifPoint(ctx context.Context, site string, dir sDirection, key string) {
+	if h := VerifHook; nil != h {
+		h(ctx, site, string(dir), key)
+	}
+}
